@@ -28,6 +28,7 @@ import GraphiqModel.Proofs.MixtureDMWeights
 import GraphiqModel.Proofs.MixtureDMJointCircuit
 import GraphiqModel.Proofs.MixtureDMPerBranch
 import GraphiqModel.Proofs.MixtureDMTotalMeas
+import GraphiqModel.Proofs.MixtureDMDefined
 namespace Graphiq.C06
 open Graphiq Graphiq.Noise Graphiq.DM
 
@@ -556,6 +557,17 @@ theorem dm_is_physical_with_measurements (ns : Bool) (ne np nc : Nat) (det : Boo
       ∀ ρ, d.ρ = some ρ → ρ.n = 2 ^ (ne + np) ∧ (toC (ne + np) ρ).PosSemidef ∧ ρ.trace = ⟨lossFactor tr, 0⟩ := by
   obtain ⟨tr, htr, g⟩ := compileDM_phys ns ne np nc det ops hw d h
   exact ⟨tr, htr, fun ρ hρ => ⟨(g ρ hρ).size, (g ρ hρ).psd, (g ρ hρ).trace_exact⟩⟩
+
+open scoped ComplexOrder in
+/-- **no NaN while the survival probability exceeds `1e-8`** (`np.isclose`'s tolerance): same circuits with loss rates in
+    `[0,1]`, measurements with arbitrary outcomes; if `∏ (1 − loss_j) > 1e-8` the density-matrix compile returns a matrix — the
+    outcome rule of `apply_measurement` never selects an outcome of probability 0 — and that matrix is physical -/
+theorem dm_is_defined_above_the_tolerance (ns : Bool) (ne np nc : Nat) (det : Bool) (ops : List COp)
+    (hw : ∀ op ∈ ops, OpOK4 (ne + np) np op) (tr : List Act) (htr : compileTrace ns .dm np ops = .ok tr)
+    (hτ : tol < lossFactor tr) (d : DmSt) (h : compileDM ns ne np nc det ops = .ok d) :
+    ∃ ρ, d.ρ = some ρ ∧ (toC (ne + np) ρ).PosSemidef ∧ ρ.trace = ⟨lossFactor tr, 0⟩ := by
+  obtain ⟨ρ, hρ, g⟩ := compileDM_defined ns ne np nc det ops hw tr htr hτ d h
+  exact ⟨ρ, hρ, g.psd, g.trace_exact⟩
 
 /-- it applies to the witness circuit of finding F2 (non-uniform branches): there the two backends differ, but each is physical -/
 example : ∀ op ∈ ([{ kind := .x, n0 := .depol (1/3) true }, { kind := .measZ }] : List COp), OpOK3 (1 + 0) 0 op := by
